@@ -217,3 +217,7 @@ package daemon
 //@ # ---- reload on open: every stored record is decoded into an object of its own (records never share pod info, resource
 //@ # ---- lists or sandbox ids through a reused decode target) ----
 //@ guard call json.Unmarshal in InitResourceDB$1: isptr(arg1, daemon.PodResources) && fresh(asptr(arg1, daemon.PodResources))
+
+//@ for C03
+//@ # the teardown a DEL reports is that of the sandbox's own pod: the UID recorded at ADD time, when the record has one
+//@ guard call Manager.Release in ReleaseIP: oldRes.PodInfo == nil || oldRes.PodInfo.PodUID == "" || arg1.PodUID == oldRes.PodInfo.PodUID
